@@ -266,6 +266,60 @@ Theorem C12_mkdir_all_succeeds_kernel_backend :
     FSModel.is_dir s' c = true /\ FSModel.kwalk s' path false nosym = FSModel.WOk c /\ DynMkdir.extends s s'.
 Proof. exact DynMkdirComplete.mkdir_all_kernel_succeeds. Qed.
 
+(* ---- C12, racing callers (the property's "all callers succeed with handles to the directories now at their
+   paths"), on the model: [mk_conc] is the creation loop with the environment adding directories -- what every other
+   mkdir_all caller does, and what the loop's own steps do ([C12_own_steps_are_environment_steps]) -- between any
+   two of its calls.  Whatever the interleaving, a loop that had no reason to fail at the start does not fail, and
+   its handle is the descent along the components in the final tree.  Without interference [mk_conc] is mk_spec. *)
+From PV Require DynMkdirConc.
+
+Theorem C12_interference_free_is_spec :
+  forall ps s o, DynMkdirConc.mk_conc s o ps (fst (DynMkdir.mk_spec s o ps)) (snd (DynMkdir.mk_spec s o ps)).
+Proof. exact DynMkdirConc.mk_conc_seq. Qed.
+
+Theorem C12_own_steps_are_environment_steps :
+  forall s o p s1, DynMkdir.mk_dir s o p = inl s1 -> DynMkdir.extends s s1.
+Proof. exact DynMkdirConc.mk_dir_extends. Qed.
+
+Theorem C12_loop_converges_under_racing_creators :
+  forall s o ps s' r, DynMkdirConc.mk_conc s o ps s' r ->
+  DynMkdir.closed2 s -> DynMkdirComplete.dirs_ok s -> FSModel.is_dir s o = true ->
+  Forall (fun p => Dyn.plain p = true) ps -> DynMkdirComplete.chain_ok s o ps ->
+  DynMkdir.extends s s' /\
+  exists c, r = inl c /\ DynMkdir.descend_dirs s' o ps = Some c /\ FSModel.is_dir s' c = true.
+Proof. exact DynMkdirConc.mk_conc_converges. Qed.
+
+Theorem C12_racing_callers_hold_the_same_directory :
+  forall sa sb o ps sa' sb' ra rb sF,
+  DynMkdirConc.mk_conc sa o ps sa' ra -> DynMkdirConc.mk_conc sb o ps sb' rb -> DynMkdir.extends sa' sF -> DynMkdir.extends sb' sF ->
+  DynMkdir.closed2 sa -> DynMkdirComplete.dirs_ok sa -> FSModel.is_dir sa o = true -> DynMkdirComplete.chain_ok sa o ps ->
+  DynMkdir.closed2 sb -> DynMkdirComplete.dirs_ok sb -> FSModel.is_dir sb o = true -> DynMkdirComplete.chain_ok sb o ps ->
+  Forall (fun p => Dyn.plain p = true) ps ->
+  exists c, ra = inl c /\ rb = inl c /\ DynMkdir.descend_dirs sF o ps = Some c.
+Proof. exact DynMkdirConc.mk_conc_same_handles. Qed.
+
+(* non-vacuity: another caller creates x before our mkdirat (EEXIST, tolerated) and x/y between our open of x and
+   our mkdirat of y; we end on the other caller's x/y *)
+Example C12_racing_run :
+  let s0 := {| FSModel.kinds := [FSModel.KDir]; FSModel.parents := [0%nat]; FSModel.ents := [] |} in
+  let s1 := FSModel.add_obj s0 0 (b "x") FSModel.KDir in
+  let s2 := FSModel.add_obj s1 1 (b "y") FSModel.KDir in
+  DynMkdirConc.mk_conc s0 0 [b "x"; b "y"] s2 (inl 2%nat) /\
+  DynMkdir.closed2 s0 /\ DynMkdirComplete.dirs_ok s0 /\ DynMkdirComplete.chain_ok s0 0 [b "x"; b "y"].
+Proof.
+  intros s0 s1 s2. split.
+  - apply (DynMkdirConc.mc_env s0 s1); [apply (DynMkdir.ext_add s0 s0); [apply DynMkdir.ext_refl|reflexivity|reflexivity]|].
+    apply (DynMkdirConc.mc_step s1 0%nat (b "x") [b "y"] s1 s2 1%nat); [vm_compute; reflexivity| |vm_compute; reflexivity|].
+    + apply (DynMkdir.ext_add s1 s1); [apply DynMkdir.ext_refl|reflexivity|reflexivity].
+    + apply (DynMkdirConc.mc_step s2 1%nat (b "y") [] s2 s2 2%nat); [vm_compute; reflexivity|apply DynMkdir.ext_refl|vm_compute; reflexivity|apply DynMkdirConc.mc_nil].
+  - split; [|split].
+    + split; [split; [vm_compute; lia|split]|reflexivity].
+      * intros d n c H. destruct d; discriminate H.
+      * intros o Ho. unfold Static.PB in *. cbn in Ho. destruct o; [vm_compute; lia|lia].
+    + intros e [].
+    + vm_compute. repeat split; constructor; try reflexivity; constructor.
+Qed.
+
 (* executed (non-vacuity): abs -> /a; mkdir_all("abs/x/y/z") on both backends creates a/x, a/x/y, a/x/y/z and
    returns the last one; the pure functions give the same tree and object; a file in the way ends the loop
    with ENOTDIR after a/x was created (what was created lies on the chain) *)
@@ -304,3 +358,7 @@ Print Assumptions C12_handle_is_resolution_in_resulting_tree.
 Print Assumptions C12_mkdir_all_post_kernel_backend.
 Print Assumptions C12_spec_complete.
 Print Assumptions C12_mkdir_all_succeeds_kernel_backend.
+Print Assumptions C12_interference_free_is_spec.
+Print Assumptions C12_own_steps_are_environment_steps.
+Print Assumptions C12_loop_converges_under_racing_creators.
+Print Assumptions C12_racing_callers_hold_the_same_directory.
